@@ -157,9 +157,10 @@ ConOK(F, nb, k, s) ==
     CASE k.c = "MinimumTrials" -> TRUE
       [] k.c = "Exclude" -> \A t \in 1..Len(s) : s[t][k.f] # k.l
       [] k.c = "Pin" ->
-           \A w \in k.wins :
-              LET ts == PinTrials(k, w[1], w[2]) IN
-              ts # {} /\ \A t \in ts : s[t + 1][k.f] = k.l
+           \* READING-2: a repetition window that is too short to contain the index (a clipped last
+           \* repetition) pins nothing; the constraint is unsatisfiable only if NO window contains it
+           LET ts == UNION { PinTrials(k, w[1], w[2]) : w \in k.wins } IN
+           ts # {} /\ \A t \in ts : s[t + 1][k.f] = k.l
       [] k.c \in {"AtMostKInARow", "AtLeastKInARow", "ExactlyKInARow"} ->
            \A l \in LevelsOf(F, k) : \A w \in k.wins :
               \A r \in Runs(s, k.f, l, w[1], w[2]) : RunLenOK(k.c, k.k, r[2] - r[1] + 1)
